@@ -148,6 +148,7 @@ def check_c11(pid, tier, seed, replay):
         ntraces = len(traces)
         cov_total, twins, states, rejected = {}, 0, 0, 0
         sigs = set()
+        bad_tids = set()
         for ci, chunk in enumerate(chunks_of(traces)):
             remaining = list(chunk)
             for rnd in range(4):
@@ -190,19 +191,26 @@ def check_c11(pid, tier, seed, replay):
                     sig += ":%s" % ev["ops"][0]["m"]
                 v.violation(sig, rp, "trace %s line %d: %s" % (tid, lineno, what))
                 rejected += 1
+                bad_tids.add(tid)
                 remaining = remaining[:ti] + remaining[ti + 1:]
                 if sig in sigs:
-                    remaining = []  # the same law on the same method again: enough
+                    # the same law on the same method again: enough; what was not validated counts as not validated
+                    rejected += len(remaining)
+                    bad_tids.update(json.loads(t[0]).get("tid", "") for t in remaining)
+                    remaining = []
                 sigs.add(sig)
         v.cov["states"] += states
         v.cov["transitions"] += states
         v.cov["traces_validated_against_impl"] = ntraces - rejected
         v.cov["evaluations"] = twins
         # binding self-test on the first trace: every corruption must be rejected by a law that judges the precompile
-        first = traces[0]
-        tests = corruptions(first)
-        if len(tests) < 4:
+        good = [t for t in traces if json.loads(t[0]).get("tid", "") not in bad_tids]
+        first = good[0] if good else traces[0]
+        tests = corruptions(first) if good else []
+        if good and len(tests) < 4:
             raise Infra("self-test: the first trace offers too little to corrupt")
+        if not good:
+            log("binding self-test skipped: no trace of this run was accepted (violations are reported below)")
         notes = []
         for what, at, t, groups in tests:
             ds = w.sub("selftest")
